@@ -47,8 +47,8 @@ fn bases(tier: Tier) -> Vec<Base> {
 
 fn n_sampled_chunks(tier: Tier) -> u64 {
     match tier {
-        Tier::Quick => 200,
-        Tier::Thorough => 10_000,
+        Tier::Quick => 3_000,
+        Tier::Thorough => 40_000,
     }
 }
 
